@@ -258,6 +258,24 @@ def plan_c05(ctx):
         add(ctx, [query(ctx, "C05-e-%d" % i, nq, [["dfs", [inner]], ["eq", ["var", 1], ["var", 1]]], ordered=True)])
 
 
+    # answers whose reification costs differ widely (deep lists and compounds against atoms): the
+    # query boundary must not let a cheap answer overtake an expensive one
+    for i in range(T(ctx, 150, 3000)):
+        nq = rng.randint(1, 2)
+        cls = []
+        for j in range(rng.randint(2, 4)):
+            v = ["var", rng.randint(1, nq)]
+            deep = rng.random() < 0.5
+            if deep:
+                t = ["list", [["num", rng.randint(0, 3)] for _ in range(rng.randint(1, 6))]]
+                if rng.random() < 0.3:
+                    t = ["cmp", "Pair", [t, ["list", [["num", j], t]]]]
+            else:
+                t = ["num", 10 + j]
+            cls.append([["eq", v, t] if rng.random() < 0.5 else ["eq", t, v]])
+        add(ctx, [query(ctx, "C05-w-%d" % i, nq, [["dfs", [[["cond", cls]]]]], ordered=True)])
+
+
 def plan_c06(ctx):
     r = search_mc(ctx, "bfs", T(ctx, "BfsSmall", "B2"), False)
     add(ctx, solver_cases(ctx, r, "b"))
